@@ -10,7 +10,7 @@ INJECTS = [("harness/libacc/lib_verif.go", "pkg/station/lib/zz_verif_acc.go"),
            ("harness/app/zz_verif_keys.go", "cmd/application/zz_verif_keys.go"),
            ("harness/app/zz_verif_c03.go", "cmd/application/zz_verif_c03.go"),
            ("harness/app/zz_verif_c04.go", "cmd/application/zz_verif_c04.go"),
-           ("harness/app/zz_verif_stub.go", "cmd/application/zz_verif_stub.go")]
+           ("harness/app/zz_verif_c17.go", "cmd/application/zz_verif_c17.go")]
 
 
 def build():
